@@ -418,8 +418,50 @@ impl C16 {
         out
     }
 
+    /// SIGINT delivered to n2 itself while a command that ignores it keeps running and then succeeds: the build was
+    /// interrupted, so n2 must not claim success (non-zero exit, no "now up to date").
+    fn run_interrupt_n2(&self, case: &Case, env: &Env) -> CaseOut {
+        let dir = env.dir.join("bbk");
+        util::fresh_cwd(&dir);
+        let mut t = Tape::new(&case.main);
+        let n = 1 + t.below(3);
+        let mut m = String::new();
+        for id in 0..n {
+            m += &format!("rule r{}\n  command = trap '' INT; sleep 0.6; touch o{}\n  description = T{}\nbuild o{}: r{}\n", id, id, id, id, id);
+        }
+        std::fs::write("build.ninja", &m).unwrap();
+        let mut out = CaseOut { evals: 1, nontrivial: true, ..Default::default() };
+        let child = Command::new(n2_binary()).args(["-j", "4"]).current_dir(&dir).stdin(Stdio::null()).stdout(Stdio::piped()).stderr(Stdio::piped()).spawn();
+        let Ok(child) = child else {
+            out.viols.push(Viol::new("INFRA", "cannot-run-n2", "cannot run the n2 binary".to_string()));
+            return out;
+        };
+        std::thread::sleep(std::time::Duration::from_millis(200 + t.below(200) as u64));
+        unsafe {
+            libc::kill(child.id() as i32, libc::SIGINT);
+        }
+        let o = child.wait_with_output();
+        let Ok(o) = o else { return out };
+        let text = String::from_utf8_lossy(&o.stdout).into_owned();
+        use std::os::unix::process::ExitStatusExt;
+        // n2 either dies from the (second-chance) signal or finishes with a non-zero status; it must not report success
+        if o.status.code() == Some(0) || text.contains("now up to date") {
+            out.viols.push(Viol::new("C16", "interrupt-ignored", format!("n2 received SIGINT during the build but exited {:?} with {:?}", o.status.code(), text.lines().last())));
+            out.viols.push(Viol::new("C05", "interrupt-ignored", format!("n2 received SIGINT during the build but exited {:?} with {:?}", o.status.code(), text.lines().last())));
+        }
+        let _ = o.status.signal();
+        out.fp = fnv_str(&format!("sigint-n2 {}", m));
+        out.classes = vec!["sigint-to-n2".into()];
+        out.desc = json!({"manifest": m, "exit": o.status.code(), "stdout": text});
+        let _ = std::env::set_current_dir("/");
+        out
+    }
+
     /// SIGINT: the shell dies from SIGINT => `interrupted:`, exit 1, and with -j1 nothing starts afterwards.
     fn run_interrupt(&self, case: &Case, env: &Env) -> CaseOut {
+        if case.main.first().copied().unwrap_or(0) % 4 == 0 {
+            return self.run_interrupt_n2(case, env);
+        }
         let dir = env.dir.join("bbi");
         util::fresh_cwd(&dir);
         let logdir = dir.join("agentlog");
